@@ -45,12 +45,13 @@ OutputSigner(s, c, tx, h) ==
        /\ tx.node \in DOMAIN s.val /\ s.val[tx.node].output # ""
     THEN {s.val[tx.node].output} ELSE {}
 
-\* a staked application may sign a transfer of itself to a new key (after AppTransfer):
+\* an existing application may sign a transfer of itself to a new key (after AppTransfer; the
+\* handler, not the ante, requires it to be staked):
 \* app-stake message naming ANOTHER key, with no chains and zero value
 IsAppTransfer(s, c, tx, h) ==
     /\ tx.kind = "app_stake" /\ Active(c, "AppTransfer", h)
     /\ tx.signer # "" /\ tx.signer # tx.app
-    /\ tx.signer \in DOMAIN s.app /\ s.app[tx.signer].status = STAKED
+    /\ tx.signer \in DOMAIN s.app     \* ANY existing application record (x/apps IsMsgAppTransfer does not look at its status)
     /\ tx.chains = <<>> /\ tx.amount = 0
 TransferSigner(s, c, tx, h) == IF IsAppTransfer(s, c, tx, h) THEN {tx.signer} ELSE {}
 
